@@ -115,7 +115,11 @@ func (k Keeper) HandleUpgrade(ctx sdk.Ctx, aclKey string, paramValue interface{}
 				ctx.Logger().Error(fmt.Sprintf("unable to convert %v to upgrade, can't emit event about upgrade, at height: %d", paramValue, ctx.BlockHeight()))
 				return sdk.Result{Events: ctx.EventManager().Events()}
 			}
-			codec.UpgradeHeight = u.Height
+			// the upgrade switches are process globals: only block execution may move them,
+			// never an app/simulate query (which runs this handler too)
+			if !sdk.IsSimulateCtx(ctx) {
+				codec.UpgradeHeight = u.Height
+			}
 			ctx.EventManager().EmitEvent(sdk.NewEvent(
 				types.EventUpgrade,
 				sdk.NewAttribute(sdk.AttributeKeyModule, types.ModuleName),
@@ -183,9 +187,13 @@ func handleUpgradeAfterUpdate(ctx sdk.Ctx, aclKey string, paramValue interface{}
 			ctx.Logger().Error(fmt.Sprintf("unable to convert %v to upgrade, can't emit event about upgrade, at height: %d", paramValue, ctx.BlockHeight()))
 			return sdk.Result{Events: ctx.EventManager().Events()}
 		}
-		codec.UpgradeHeight = newUpgrade.Height
-		codec.OldUpgradeHeight = newUpgrade.OldUpgradeHeight
-		codec.UpgradeFeatureMap = codec.SliceToExistingMap(newUpgrade.GetFeatures(), codec.UpgradeFeatureMap)
+		// the upgrade switches are process globals: only block execution may move them,
+		// never an app/simulate query (which runs this handler too)
+		if !sdk.IsSimulateCtx(ctx) {
+			codec.UpgradeHeight = newUpgrade.Height
+			codec.OldUpgradeHeight = newUpgrade.OldUpgradeHeight
+			codec.UpgradeFeatureMap = codec.SliceToExistingMap(newUpgrade.GetFeatures(), codec.UpgradeFeatureMap)
+		}
 		ctx.EventManager().EmitEvent(sdk.NewEvent(
 			types.EventUpgrade,
 			sdk.NewAttribute(sdk.AttributeKeyModule, types.ModuleName),
